@@ -58,6 +58,51 @@ class IR(AuxDataContainer):
             v._ir = self._node
             v._add_to_uuid_cache(self._node._local_uuid_cache)
 
+        def _assign(
+            self, tagged: typing.List[typing.Tuple[Module, bool]]
+        ) -> None:
+            """Make the list hold the modules of ``tagged``, in order and
+            each at most once. Entries tagged True are the ones being
+            assigned; a module that is assigned while it already is a member
+            moves to its new position instead of appearing twice. The hooks
+            run only for modules that actually leave or enter the list.
+            """
+            incoming = {id(m) for m, is_new in tagged if is_new}
+            result: typing.List[Module] = []
+            seen: typing.Set[int] = set()
+            for m, is_new in tagged:
+                if (is_new or id(m) not in incoming) and id(m) not in seen:
+                    seen.add(id(m))
+                    result.append(m)
+            old = {id(m) for m in self._data}
+            for m in self._data:
+                if id(m) not in seen:
+                    self._remove(m)
+            self._data = [m for m in result if id(m) in old]
+            for m in result:
+                if id(m) not in old:
+                    self._add(m)
+            self._data = result
+
+        def __setitem__(self, i, v):  # type: ignore
+            # Build the new contents first, so that a bad index or a slice
+            # of the wrong size raises before anything has changed.
+            tagged = [(m, False) for m in self._data]
+            if isinstance(i, slice):
+                tagged[i] = [(m, True) for m in v]
+            else:
+                tagged[i] = (v, True)
+            self._assign(tagged)
+
+        def insert(self, i: int, v: Module) -> None:
+            tagged = [(m, False) for m in self._data]
+            tagged.insert(i, (v, True))
+            self._assign(tagged)
+
+        def reverse(self) -> None:
+            # Reordering does not change ownership.
+            self._data.reverse()
+
     def __init__(
         self,
         *,
